@@ -54,6 +54,11 @@ CHECKS = [
   'level': 'Packing: decode(pack(k)) = k for all fields, injective per degree, table = bijection onto the multi-indices (exhaustive to the stated degree). Algebra: add, scale, multiply, power, differentiate, integrate, Poisson bracket, '
            'evaluate, Jacobian, linear/affine substitution return the mathematically defined coefficients for all coefficient values (real and complex). Schedules: no conflicting accesses and schedule-independent reduction for every assignment of 3 thread ids.',
   'note': 'operand degrees <= 2 with 5-6 symbolic coefficients (products to degree 4; 6 thorough), substitution degree <= 3; table enumeration to degree 14 (30 thorough); zero-skip guards and cleaning thresholds on the generic side; FP re-association outside the claim'},
+ {'id': 'C18',
+  'technique': 'symbolic execution of every registered conversion and of the coordinate maps on symbolic polynomials/points; equality with an independent substitution reference decided on exact normal forms over Q(sqrt 2, sqrt 3, i)',
+  'level': 'Every edge of the conversion registry (found through the registry, not by name) executes; each linear/complexifying change satisfies P_new(x) = P_old(Lx) for the matrix the code uses; bidirectional edges compose to the identity; '
+           'M M^-1 = I, solve_real/solve_complex, synodic<->local (collinear both signs, triangular) and modal<->local are exact inverses for symbolic inputs; polynomial and coordinate changes agree.',
+  'note': 'degree <= 3 polynomials with 9 symbolic complex coefficients; normal-form matrix replaced by a symbolic symplectic shear family with closed-form inverse; Lie edges only executed (C08); generic-side zero-skip/cleaning policy'},
 ]
 _BUILT = {c['id'] for c in CHECKS}
 NOT_APPLICABLE = [
